@@ -22,11 +22,22 @@ type treeChecker struct {
 	valid bool // input is valid UTF-8 (possibly symbolic)
 }
 
+// treeInput selects the input family: 0 = F(a); 1 = TL[a]; 2 = attribute-emission
+// templates; 3 = C04 templates; 4 = C14 templates; 5 = C17 HTML templates.
 func treeInput(kind, a int) []byte {
-	if kind == 0 {
+	switch kind {
+	case 0:
 		return nondetBytes(a)
+	case 1:
+		return tmplBytes(tlTemplates[a])
+	case 2:
+		return tmplBytes(attrTemplates[a])
+	case 3:
+		return tmplBytes(c04Templates[a])
+	case 4:
+		return tmplBytes(c14Templates[a])
 	}
-	return tmplBytes(tlTemplates[a])
+	return tmplBytes(c17Templates[a])
 }
 
 // parseVia parses through the in-memory (0) or the streaming (1) entry point.
